@@ -36,5 +36,7 @@ def check(ctx, rep):
     _n13.norm_13(ctx, rep)      # a prefix is split with a start position computed from its own leaf
     from ..rules import dar as _idx1
     _idx1.idx_1(ctx, rep, ['parso/python/errors.py', 'parso/normalizer.py'])     # no constant index into a freshly filtered list
+    from ..rules import dar as _loop1
+    _loop1.loop_1(ctx, rep, ['parso/python/errors.py', 'parso/normalizer.py', 'parso/python/prefix.py'])      # a value computed for one element of a loop is not used for the next one
     rep.note('Not decided: absence of every implicit exception (None dereferences that depend on tree invariants), '
              'position ranges. Dependency: RX-1 (C09) - two rules call _split_prefix.')
